@@ -386,29 +386,29 @@ noncomputable def RSt.init (ne np : Nat) (sc : Script) : RSt ne np :=
 /-! ## the compile loop's `rand` record refines the counter -/
 
 /-- the qubit a circuit operation measures -/
-def _root_.Graphiq.COp.mq (np : Nat) : COp → Option Nat
+def cMq (np : Nat) : COp → Option Nat
   | .ccx c _ _ | .ccz c _ _ | .mcr c _ _ => some (qIndex np c)
   | .measz q _ => some (qIndex np q)
   | _ => none
 
 /-- one step appends to `rand` whether its measurement (if any) was random -/
 theorem stepOp_rand (np n : Nat) (d : Det) (s s' : RunState) (op : COp) (h : stepOp np n d s op = some s') :
-    s'.rand = s.rand ++ (match op.mq np with
+    s'.rand = s.rand ++ (match cMq np op with
       | some q => [(s.t.pivot q).isSome]
       | none => []) := by
   cases op <;> simp only [stepOp] at h <;> split at h <;> (try cases h)
-  · simp [COp.mq]
-  · simp [COp.mq]
-  · simp [COp.mq]
-  · simp [COp.mq]
+  · simp [cMq]
+  · simp [cMq]
+  · simp [cMq]
+  · simp [cMq]
   · rfl
   · rfl
   · rfl
   · rfl
-  · simp [COp.mq]
+  · simp [cMq]
 
 theorem decode_mq (ne np : Nat) (a : SOp) (d : Dec) (hdec : decode ne np a = some d) :
-    mqubit ne np a = (toCOp a).mq np := by
+    mqubit ne np a = cMq np (toCOp a) := by
   have h := hdec
   unfold decode at h
   unfold mqubit
@@ -433,14 +433,14 @@ theorem decode_mq (ne np : Nat) (a : SOp) (d : Dec) (hdec : decode ne np a = som
       rw [hq] at h
       simp only [Option.map_some, Option.some.injEq] at h
       subst h
-      simp only [Option.bind_some, hq, COp.mq, regIx_qIndex hq]
+      simp only [Option.bind_some, hq, cMq, regIx_qIndex hq]
   · next k _ cr c t hitem hregs =>
     split at h
     · next qc qt hc ht =>
       rw [hitem, hregs]
       cases k <;> simp only [pairPrims, Option.some.injEq, reduceCtorEq] at h
       all_goals subst h
-      all_goals simp only [Option.bind_some, Option.bind_none, hc, COp.mq, pairCOp, regIx_qIndex hc]
+      all_goals simp only [Option.bind_some, Option.bind_none, hc, cMq, pairCOp, regIx_qIndex hc]
     · cases h
   · cases h
 
@@ -477,7 +477,7 @@ theorem run_refines_rand (ne np : Nat) (d : Det) (l : List SOp)
         congr 1
         unfold randOf
         rw [decode_mq ne np a dd hdd]
-        cases hmq : (toCOp a).mq np with
+        cases hmq : cMq np (toCOp a) with
         | none => simp [b2n]
         | some q =>
           simp only
